@@ -3,6 +3,7 @@ import SctpVerif.Driver.GenX
 import SctpVerif.Driver.E2E
 import SctpVerif.Driver.Timer
 import SctpVerif.Driver.Assoc
+import SctpVerif.Driver.AssocRecv
 import SctpVerif.Driver.Hs
 import SctpVerif.Driver.Sd
 import SctpVerif.Driver.PendQ
@@ -28,6 +29,7 @@ structure All where
   rq : Rq.St := {}
   e2e : E2E.St := {}
   assoc : Assoc.St := {}
+  arecv : AssocRecv.St := {}
   hs : HsD.St := {}
   sd : SdD.St := {}
   rto : Tm.RtoSt := {}
@@ -53,6 +55,7 @@ def stepComp (a : All) (comp : String) (op impl : List String) : All × Option S
   | "gen" => (a, some (GenX.step op), (GenX.pred op impl).toList)
   | "e2e" => let (s, v) := E2E.step a.e2e op impl; ({ a with e2e := s }, none, v)
   | "as" => let (s, r, v) := Assoc.step a.assoc op impl; ({ a with assoc := s }, r, v)
+  | "ar" => let (s, r, v) := AssocRecv.step a.arecv op impl; ({ a with arecv := s }, r, v)
   | "hs" => let (s, r, e) := HsD.step a.hs op impl; ({ a with hs := s }, some r, e.toList)
   | "sd" => let (s, r, e) := SdD.step a.sd op impl; ({ a with sd := s }, some r, e.toList)
   | "rto" => let (s, r, e) := Tm.rtoStep a.rto op impl; ({ a with rto := s }, some r, e.toList)
